@@ -42,3 +42,28 @@ Theorem C07_headers_marshal_decoded :
   headers_marshal (mkH (Some (ser p)) (Some pm) (Some (ser u)) (Some um)) = Acc (ser p, ser u).
 Proof. exact headers_marshal_decoded. Qed.
 Print Assumptions C07_headers_marshal_decoded.
+
+(* converse of C05 for COSE_Sign1: a well-formed envelope within the limits whose buckets conform is accepted, for every head width of payload / signature / protected bstr, tagged and untagged, and decodes to the sender's fields *)
+Theorem C07_sign1_conforming_accepted :
+  forall p u pl sg h payload b w,
+  wf (WArr W0 [p; u; pl; sg]) = true ->
+  depth_ok false (WArr W0 [p; u; pl; sg]) 0 = true ->       
+  bstr_or_nil pl = Acc payload ->                          
+  sg = WStr false w b -> b <> [] ->                        
+  dec_headers p u = Acc h ->                               
+  unmarshal_sign1 (210 :: ser (WArr W0 [p; u; pl; sg])) = Acc (mkS1 h payload (Some b)) /\
+  unmarshal_sign1_untagged (ser (WArr W0 [p; u; pl; sg])) = Acc (mkS1 h payload (Some b)).
+Proof. exact sign1_conforming_accepted. Qed.
+Print Assumptions C07_sign1_conforming_accepted.
+
+(* and a signature made by anyone over the RFC structure of the wire bytes verifies *)
+Theorem C07_sign1_conforming_verifies :
+  forall p u pl sg h payload b w ext vf c wp,
+  wf (WArr W0 [p; u; pl; sg]) = true -> depth_ok false (WArr W0 [p; u; pl; sg]) 0 = true ->
+  bstr_or_nil pl = Acc (Some payload) -> sg = WStr false w b -> b <> [] -> dec_headers p u = Acc h ->
+  p = WStr false wp c ->
+  ensure_verification_alg h (vf_alg vf) ext = Acc tt ->
+  vf_run vf (ser (sig1_tree "Signature1" c (gor ext) payload)) (Some b) = Acc tt ->
+  fst (sign1_verify (mkS1 h (Some payload) (Some b)) ext vf) = Acc tt.
+Proof. exact sign1_conforming_verifies. Qed.
+Print Assumptions C07_sign1_conforming_verifies.
